@@ -12,19 +12,20 @@ import (
 
 // Node is the canonical description of one schema entry.
 type Node struct {
-	Path     string   `json:"path"` // schema path incl. choice and case nodes
-	Kind     string   `json:"kind"` // container | list | leaf | leaf-list | choice | case | anydata | ...
-	Keys     string   `json:"keys,omitempty"`
-	Config   string   `json:"config"` // the config statement as written: true | false | unset
-	ReadOnly bool     `json:"readonly"`
-	Ordered  string   `json:"ordered,omitempty"`
-	Min      string   `json:"min,omitempty"`
-	Max      string   `json:"max,omitempty"`
-	Presence bool     `json:"presence,omitempty"`
-	Mandatory string  `json:"mandatory,omitempty"`
-	Default  []string `json:"default,omitempty"`
-	Prefix   string   `json:"prefix,omitempty"`
-	Type     string   `json:"type,omitempty"`
+	Path      string   `json:"path"` // schema path incl. choice and case nodes
+	Kind      string   `json:"kind"` // container | list | leaf | leaf-list | choice | case | anydata | ...
+	Keys      string   `json:"keys,omitempty"`
+	Config    string   `json:"config"` // the config statement as written: true | false | unset
+	ReadOnly  bool     `json:"readonly"`
+	Ordered   string   `json:"ordered,omitempty"`
+	Min       string   `json:"min,omitempty"`
+	Max       string   `json:"max,omitempty"`
+	Presence  bool     `json:"presence,omitempty"`
+	Mandatory string   `json:"mandatory,omitempty"`
+	Default   []string `json:"default,omitempty"`
+	Prefix    string   `json:"prefix,omitempty"`
+	Units     string   `json:"units,omitempty"`
+	Type      string   `json:"type,omitempty"`
 }
 
 func tri(t yang.TriState) string {
@@ -145,7 +146,7 @@ func Walk(e *yang.Entry, prefix string, readOnly bool, out *[]Node) {
 		case yang.TSTrue:
 			ro = false
 		}
-		nd := Node{Path: prefix + "/" + n, Kind: kindOf(c), Keys: c.Key, Config: tri(c.Config), ReadOnly: ro, Mandatory: tri(c.Mandatory), Default: c.Default, Type: TypeString(c.Type)}
+		nd := Node{Path: prefix + "/" + n, Kind: kindOf(c), Keys: c.Key, Config: tri(c.Config), ReadOnly: ro, Mandatory: tri(c.Mandatory), Default: c.Default, Units: c.Units, Type: TypeString(c.Type)}
 		if c.Name != n {
 			nd.Kind += " NAME-MISMATCH:" + c.Name
 		}
